@@ -58,7 +58,7 @@ Inductive blk :=
 | BFenced (lang : list N) (lines : list (list N))
 | BIndented (lines : list (list N))
 | BQuote (paras : list (list inl))                         (* a quote of paragraphs *)
-| BList (ordered loose : bool) (items : list (list inl * list (list inl)))   (* item text, nested tight bullet list *)
+| BList (ordered loose : bool) (items : list (list inl * (bool * list (list inl))))   (* item text, nested bullet list (loose?, items) *)
 | BTable (aligns : list align) (header : list cell) (rows : list (list cell))
 | BFigure (alt url : list N) (title : option (list N))        (* an image alone in its paragraph *)
 | BDefList (items : list (list inl * list (list inl)))         (* term, definitions *)
@@ -210,12 +210,16 @@ Definition code_block (lang : list N) (lines : list (list N)) : list N :=
 Definition tight_items (items : list (list inl)) : list N :=
   flat_map (fun it => str "<li>" ++ rinls o env it ++ str "</li>" ++ NL) items.
 
-Definition item (loose : bool) (it : list inl * list (list inl)) : list N :=
-  let '(txt, sub) := it in
+Definition loose_items (items : list (list inl)) : list N :=
+  flat_map (fun it => str "<li><p>" ++ rinls o env it ++ str "</p></li>" ++ NL) items.
+
+(* the nested list is tight or loose on its own account, whatever the list around it is *)
+Definition item (loose : bool) (it : list inl * (bool * list (list inl))) : list N :=
+  let '(txt, (subloose, sub)) := it in
   str "<li>" ++ (if loose then str "<p>" ++ rinls o env txt ++ str "</p>" else rinls o env txt) ++
   (match sub with
    | [] => []
-   | _ => NL ++ NL ++ str "<ul>" ++ NL ++ tight_items sub ++ str "</ul>"
+   | _ => NL ++ NL ++ str "<ul>" ++ NL ++ (if subloose then loose_items sub else tight_items sub) ++ str "</ul>"
    end) ++ str "</li>" ++ NL.
 
 (* cells of a row: every cell carries the alignment of the column it starts in *)
@@ -278,13 +282,16 @@ Fixpoint srow (cells : list cell) : list N :=
   | (c, span) :: r => str "| " ++ sinls sp c ++ [32] ++ repeat 124 (span - 1) ++ srow r
   end.
 
-Fixpoint number_items (n : nat) (items : list (list inl * list (list inl))) : list (nat * (list inl * list (list inl))) :=
+Fixpoint number_items {A} (n : nat) (items : list A) : list (nat * A) :=
   match items with [] => [] | it :: r => (n, it) :: number_items (S n) r end.
 
-Definition sitem (ordered : bool) (ni : nat * (list inl * list (list inl))) : list N :=
-  let '(n, (txt, sub)) := ni in
+Definition sitem (ordered : bool) (ni : nat * (list inl * (bool * list (list inl)))) : list N :=
+  let '(n, (txt, (subloose, sub))) := ni in
   indent ++ (if ordered then digit n ++ [46] else [bullet sp]) ++ [32] ++ sinls sp txt ++
-  flat_map (fun s => NL ++ str "    " ++ [bullet sp; 32] ++ sinls sp s) sub.
+  (match sub with
+   | [] => []
+   | _ => NL ++ join (if subloose then NL ++ NL else NL) (map (fun s => str "    " ++ [bullet sp; 32] ++ sinls sp s) sub)
+   end).
 
 Definition sblk (b : blk) : list N :=
   match b with
@@ -343,7 +350,7 @@ Definition bdefs (b : blk) : list ldef :=
   match b with
   | BPara l | BAtx _ l | BSetext _ l => flat_map idefs l
   | BQuote ps => flat_map (flat_map idefs) ps
-  | BList _ _ items => flat_map (fun it => flat_map idefs (fst it) ++ flat_map (flat_map idefs) (snd it)) items
+  | BList _ _ items => flat_map (fun it => flat_map idefs (fst it) ++ flat_map (flat_map idefs) (snd (snd it))) items
   | BDefList items => flat_map (fun it => flat_map idefs (fst it) ++ flat_map (flat_map idefs) (snd it)) items
   | _ => []
   end.
